@@ -1,7 +1,7 @@
 (* Props/C16.v — property theorems only (C16 Brace expansion matches bash).
    Model: Expand/Braces.v (SplitBraces, printer rendering, bracesSeqRec/BracesSeq after the fix: commits
    recorded in known_findings.jsonl; Spec = bash's brace_expand). A word is one literal, w : str. *)
-From Verif Require Import Base.Str Expand.Braces Proofs.BracesProofs Proofs.BracesPrintProofs.
+From Verif Require Import Base.Str Expand.Braces Proofs.BracesProofs Proofs.BracesPrintProofs Proofs.BracesSimProofs.
 
 (* 1. splitting braces leaves the word's printed form unchanged *)
 Theorem C16_split_preserves_text : forall w, render (snd (split_braces w)) = render [PLit w].
@@ -76,6 +76,31 @@ Theorem C16_expand_matches_spec_short_partial : forall w,
   In w short_words -> skipped_close w = false -> to_sres (expand_word w) = spec w.
 Proof. exact expand_matches_spec_short. Qed.
 Print Assumptions C16_expand_matches_spec_short_partial.
+
+(* scope D (UNBOUNDED length and nesting depth): regular words = plain runs (no { } , . \) and comma groups with
+   at least two alternatives, properly nested and closed. [regular] is a decidable recogniser; [U t] is the word of
+   a tree t of the grammar. Proved by a simulation between the stack splitter + bracesSeqRec and bash's
+   gobbler-based recursion. Missing for the full statement outside the listed classes: sequences {x..y[..n]},
+   '.' and backslashes in the text, unclosed or unmatched braces (covered by scopes B/C up to the stated lengths). *)
+Theorem C16_expand_matches_spec_regular_partial : forall w, regular w = true -> to_sres (expand_word w) = spec w.
+Proof. exact expand_matches_spec_regular_word. Qed.
+Print Assumptions C16_expand_matches_spec_regular_partial.
+
+Theorem C16_expand_matches_spec_tree_partial : forall t, ok_wt t = true -> to_sres (expand_word (U t)) = spec (U t).
+Proof. exact expand_matches_spec_regular. Qed.
+Print Assumptions C16_expand_matches_spec_tree_partial.
+
+(* what the two sides compute on a regular word: the preamble x alternatives x postscript product, cut at the limit *)
+Theorem C16_spec_regular_is_product : forall t, ok_wt t = true -> spec (U t) = lim (T t).
+Proof. intros t H. rewrite (spec_regular t H). exact (proj1 E_lim t H). Qed.
+Print Assumptions C16_spec_regular_is_product.
+
+Example C16_ex_regular :   (* a{b,{c,d}e,}f{x,y} is regular, in no listed class, and expands to 8 words *)
+  let w := [97;123;98;44;123;99;44;100;125;101;44;125;102;123;120;44;121;125] in
+  regular w = true /\ known_class w = false
+  /\ spec w = Words [[97;98;102;120]; [97;98;102;121]; [97;99;101;102;120]; [97;99;101;102;121];
+                     [97;100;101;102;120]; [97;100;101;102;121]; [97;102;120]; [97;102;121]].
+Proof. exact ex_regular. Qed.
 
 (* non-vacuity *)
 Example C16_ex_split : split_braces [97;123;98;44;99;125;100]    (* a{b,c}d *)
